@@ -27,6 +27,8 @@
   C13-HELPERS  the ``forloop`` / ``tablerowloop`` helper properties are the documented formulas of
                the running index (index = i+1, rindex = length-i, first = i==0,
                last = i==length-1, col/row stepping by ``ncols``).
+  C13-BLANK    the loop nodes derive ``blank`` from every block they render (body and else), so
+               blank-block suppression never discards the else output (engine shared with C10/C18).
 Not decided: which items a particular collection/limit/offset yields (value level).
 """
 
@@ -64,7 +66,7 @@ TABLEROW_FORMULAS = {
 
 def run(repo: Repo) -> Result:
     res = Result(PID)
-    res.rules = ["C13-INTERRUPT", "C13-BOUNDS", "C13-NONE", "C13-SHAPE", "C13-BIND", "C13-HELPERS"]
+    res.rules = ["C13-INTERRUPT", "C13-BOUNDS", "C13-NONE", "C13-SHAPE", "C13-BIND", "C13-HELPERS", "C13-BLANK"]
     res.explanation = "who raises/catches the loop interrupts; sign facts of the islice bounds; None-tests of limit/offset; helper formula tables"
     res.assumptions = ["visited items for particular data are value-level"]
 
@@ -386,6 +388,15 @@ def run(repo: Repo) -> Result:
                 reads_ok = cc1 == {f"{p_idx} is None"}
     if not (stores_ok and reads_ok):
         res.add("C13-SHAPE", si.qual, "stopindex", "RenderContext.stopindex must store an index when given one (including 0) and default to 0", si.file, si.line)
+    # ---- C13-BLANK: the loop body and the else block are both accounted for in `blank` -------------
+    # "the else block is rendered iff the sequence is empty" also inside a container that is
+    # otherwise blank: the loop nodes' blank flag must be derived from every block they render
+    # (sa/engines/blank.py) — a flag that ignores the else block has blank-block suppression
+    # discard the else output of a loop whose body is whitespace.
+    from ..engines.blank import check_blank
+
+    nb = check_blank(repo, res, "C13-BLANK", only=lambda c: c.module.name in ("liquid.builtin.tags.for_tag", "liquid.builtin.tags.tablerow_tag"), min_classes=2)
+    res.stats["blank_claims_checked"] = nb
     return res
 
 
